@@ -87,6 +87,15 @@ impl Src {
 	pub fn of(data: &[u8]) -> Self {
 		Src::new(Arc::new(data.to_vec()), Policy::Whole)
 	}
+	/// Put `n` junk bytes in front of the data and start reading after them: the
+	/// stream is then not at position 0 when the library gets it.
+	pub fn with_prefix(mut self, n: usize) -> Self {
+		let mut d = vec![0xA5u8; n];
+		d.extend_from_slice(&self.data);
+		self.data = Arc::new(d);
+		self.pos = n;
+		self
+	}
 	pub fn with_fault(mut self, call: usize, kind: io::ErrorKind) -> Self {
 		self.fault = Some((call, kind));
 		self
@@ -151,5 +160,48 @@ impl Seek for Src {
 		// like Cursor: seeking beyond the end is allowed, reads then return 0
 		self.pos = new as usize;
 		Ok(self.pos as u64)
+	}
+}
+
+/// Instrumented byte sink: accepts at most `max_per_call` bytes per `write`
+/// call (a legitimate short write) and/or fails once `fail_after` bytes have
+/// been accepted (disk full, closed pipe). Counts calls.
+pub struct Sink {
+	pub buf: Vec<u8>,
+	pub max_per_call: usize,
+	pub fail_after: Option<usize>,
+	pub calls: usize,
+	pub failed: bool,
+}
+
+impl Sink {
+	pub fn short(max_per_call: usize) -> Sink {
+		Sink { buf: vec![], max_per_call: max_per_call.max(1), fail_after: None, calls: 0, failed: false }
+	}
+	pub fn failing(after: usize) -> Sink {
+		Sink { buf: vec![], max_per_call: usize::MAX, fail_after: Some(after), calls: 0, failed: false }
+	}
+}
+
+impl io::Write for Sink {
+	fn write(&mut self, data: &[u8]) -> io::Result<usize> {
+		self.calls += 1;
+		if data.is_empty() {
+			return Ok(0);
+		}
+		let mut n = data.len().min(self.max_per_call);
+		if let Some(limit) = self.fail_after {
+			let room = limit.saturating_sub(self.buf.len());
+			if room == 0 {
+				self.failed = true;
+				return Err(io::Error::new(io::ErrorKind::Other, "injected sink failure"));
+			}
+			n = n.min(room);
+		}
+		self.buf.extend_from_slice(&data[..n]);
+		Ok(n)
+	}
+	fn flush(&mut self) -> io::Result<()> {
+		Ok(())
 	}
 }
